@@ -1,6 +1,936 @@
-//! C13 — harness module not built yet.
+//! C13 — tiered whitelist stages never overlap and membership is stage-scoped.
+//! Runs histories (instantiate, add/remove/update stage, member edits, clock) on the real
+//! tiered-whitelist, tiered-whitelist-flex and tiered-whitelist-merkletree contracts,
+//! observes Stages / Stage / Members / ActiveStage / ActiveStageId / IsActive / HasStarted /
+//! HasEnded / Config / HasMember / Member at every boundary instant of every stage, prints
+//! the histories as Coq terms for the model comparison, and evaluates the property text
+//! directly on the answers (monitors; they share nothing with the Coq model).
+#[path = "c13_world.rs"]
+mod c13_world;
+use crate::chain::GENESIS_NS;
+use crate::util::*;
 use crate::Args;
-pub fn run(_a: &Args) {
-    eprintln!("C13: harness module not built yet");
-    std::process::exit(2);
+use c13_world::*;
+use serde::{Deserialize, Serialize};
+use std::collections::BTreeSet;
+
+#[derive(Clone, Debug, Serialize, Deserialize, PartialEq, Eq, PartialOrd, Ord)]
+pub struct Case {
+    pub label: String,
+    pub kind: Kind,
+    pub now0: u64,
+    pub inst: Inst,
+    pub probes: Vec<Probe>,
+    pub ops: Vec<Op>,
+}
+
+#[derive(Default)]
+struct Outcome {
+    coq: String,
+    inst_ok: bool,
+    violations: Vec<(String, String)>, // (key, what)
+    hist: Vec<String>,
+    distinct: Vec<String>,
+    impl_steps: u64,
+    sample: String,
+}
+
+// ======================= monitors (from the property text) =======================
+
+fn expected_active(stages: &[StageResp], t: u64) -> Option<usize> {
+    // "the earliest stage whose window (both ends inclusive) contains the current time"
+    stages.iter().position(|(_, s, _)| s.start <= t && t <= s.end)
+}
+
+/// shape of the stage list: at most three, start before end, a stage never starts before
+/// the previous one ends
+fn monitor_shape(kind: Kind, so: &StaticObs, at_creation: bool, out: &mut Vec<(String, String)>) {
+    let key = format!("C13:{}:stage-shape", kind.name());
+    match &so.stages {
+        Ok(l) => {
+            if l.len() > 3 {
+                out.push((key.clone(), format!("{} stages reported", l.len())));
+            }
+            if at_creation && l.is_empty() {
+                out.push((key.clone(), "created with no stage".into()));
+            }
+            for (i, (id, s, _)) in l.iter().enumerate() {
+                if *id != i as u64 {
+                    out.push((key.clone(), format!("stage at position {} reports id {}", i, id)));
+                }
+                if !(s.start < s.end) {
+                    out.push((key.clone(), format!("stage {} has start {} not before end {}", i, s.start, s.end)));
+                }
+                if i > 0 && s.start < l[i - 1].1.end {
+                    out.push((key.clone(), format!("stage {} starts at {} before stage {} ends at {}", i, s.start, i - 1, l[i - 1].1.end)));
+                }
+            }
+        }
+        Err(_) => {
+            // plain/flex answer "No stages found" once every stage was removed; at creation
+            // there must be a list (the Merkle kind can fail only for a missing root)
+            if at_creation && kind != Kind::Merkle {
+                out.push((key, "Stages query fails right after creation".into()));
+            }
+            // a fourth stage must never be reachable by id either
+        }
+    }
+    if so.stage_k.len() == 4 && so.stage_k[3].is_ok() {
+        out.push((format!("C13:{}:stage-shape", kind.name()), "Stage{stage_id: 3} exists (a fourth stage)".into()));
+    }
+}
+
+fn monitor_first_future(kind: Kind, so: &StaticObs, now: u64, what: &str, out: &mut Vec<(String, String)>) {
+    if let Ok(l) = &so.stages {
+        if let Some((_, s, _)) = l.first() {
+            if !(s.start > now) {
+                out.push((
+                    format!("C13:{}:first-stage-not-future", kind.name()),
+                    format!("{} accepted at {} with the first stage starting at {}", what, now, s.start),
+                ));
+            }
+        }
+    }
+}
+
+/// clock-dependent answers against the stage list and the per-stage member lists
+fn monitor_time(kind: Kind, so: &StaticObs, to: &TimeObs, probes: &[Probe], hashes: &mut Ids, out: &mut Vec<(String, String)>) {
+    let Ok(stages) = &so.stages else {
+        // no stage list: nothing may be active, nobody may be a member
+        if kind != Kind::Merkle {
+            if to.active.is_some() || to.active_id != 0 || to.is_active || to.cfg.active {
+                out.push((format!("C13:{}:active-stage", kind.name()), format!("no stages but something is active at {}", to.t)));
+            }
+            for (j, h) in to.has.iter().enumerate() {
+                if *h != Ok(false) {
+                    out.push((format!("C13:{}:has-member", kind.name()), format!("no stages but HasMember({}) = {:?}", probes[j].member, h)));
+                }
+            }
+        }
+        return;
+    };
+    let exp = expected_active(stages, to.t);
+    let containing: Vec<usize> = stages.iter().enumerate().filter(|(_, (_, s, _))| s.contains(to.t)).map(|(i, _)| i).collect();
+    let key = format!("C13:{}:active-stage", kind.name());
+    match exp {
+        Some(i) => {
+            if to.active.as_ref() != Some(&stages[i].1) {
+                out.push((key.clone(), format!("at {} windows {:?} contain the instant; ActiveStage = {:?}, expected stage {}", to.t, containing, to.active, i)));
+            }
+            if to.active_id != i as u64 + 1 {
+                out.push((key.clone(), format!("at {} ActiveStageId = {}, expected {}", to.t, to.active_id, i + 1)));
+            }
+            if !to.is_active {
+                out.push((key.clone(), format!("at {} IsActive = false inside stage {}", to.t, i)));
+            }
+        }
+        None => {
+            if to.active.is_some() || to.active_id != 0 || to.is_active {
+                out.push((key.clone(), format!("at {} no window contains the instant but ActiveStage = {:?}, id {}, IsActive {}", to.t, to.active, to.active_id, to.is_active)));
+            }
+        }
+    }
+    // price / per-address limit / window reported by Config come from the active stage
+    let ckey = format!("C13:{}:config", kind.name());
+    match exp {
+        Some(i) => {
+            let s = &stages[i].1;
+            let c = &to.cfg;
+            if !c.active || c.start != s.start || c.end != s.end || c.denom != s.denom || c.price != s.price || (kind != Kind::Flex && c.pal != s.pal as u64) {
+                out.push((ckey, format!("at {} stage {} is active ({:?}) but Config = {:?}", to.t, i, s, c)));
+            }
+        }
+        None => {
+            if to.cfg.active {
+                out.push((ckey, format!("at {} no stage is active but Config.is_active", to.t)));
+            }
+        }
+    }
+    // membership comes from the active stage only; no active stage, no member
+    let hkey = format!("C13:{}:has-member", kind.name());
+    for (j, p) in probes.iter().enumerate() {
+        match kind {
+            Kind::Merkle => {
+                let fold = p.fold().map(|s| hashes.id(&s));
+                let want = match exp {
+                    Some(i) => fold.is_some() && fold == Some(stages[i].2),
+                    None => false,
+                };
+                if want && to.has[j] != Ok(true) {
+                    out.push((hkey.clone(), format!("at {} member {} proves against the root of active stage {} but HasMember = {:?}", to.t, p.member, exp.unwrap(), to.has[j])));
+                }
+                if !want && to.has[j] == Ok(true) {
+                    out.push((hkey.clone(), format!("at {} HasMember({}, proof {:?}) = true; active stage {:?}", to.t, p.member, p.proof, exp)));
+                }
+            }
+            _ => {
+                let stored = |i: usize| -> Option<u64> {
+                    so.members_k[i].as_ref().ok().and_then(|l| l.iter().find(|(a, _)| *a == p.member).map(|(_, v)| *v))
+                };
+                let want = exp.and_then(stored);
+                if to.has[j] != Ok(want.is_some()) {
+                    out.push((hkey.clone(), format!("at {} active stage {:?}, member {} stored there: {}; HasMember = {:?}", to.t, exp, p.member, want.is_some(), to.has[j])));
+                }
+                if kind == Kind::Flex {
+                    // the per-address limit of the flex kind is the stored mint_count of the active stage
+                    let ok = match (&to.member[j], want) {
+                        (Ok(v), Some(w)) => *v == w,
+                        (Err(_), None) => true,
+                        _ => false,
+                    };
+                    if !ok {
+                        out.push((format!("C13:{}:member-limit", kind.name()), format!("at {} active stage {:?}, member {} stored limit {:?}; Member = {:?}", to.t, exp, p.member, want, to.member[j])));
+                    }
+                }
+            }
+        }
+    }
+}
+
+/// "A stage can be removed only before it starts, and removing it removes every later
+/// stage together with all their members."
+fn monitor_remove(kind: Kind, before: &StaticObs, after: &StaticObs, id: u32, now: u64, out: &mut Vec<(String, String)>) {
+    let key = format!("C13:{}:remove-stage", kind.name());
+    let Ok(b) = &before.stages else {
+        out.push((key, "remove_stage accepted without any stage".into()));
+        return;
+    };
+    let id = id as usize;
+    if id >= b.len() {
+        out.push((key, format!("remove_stage({}) accepted with {} stages", id, b.len())));
+        return;
+    }
+    if !(now < b[id].1.start) {
+        out.push((key.clone(), format!("remove_stage({}) accepted at {} but the stage starts at {}", id, now, b[id].1.start)));
+    }
+    let a: Vec<StageResp> = after.stages.clone().unwrap_or_default();
+    if a.len() != id || a.iter().zip(b.iter()).any(|(x, y)| x != y) {
+        out.push((key.clone(), format!("remove_stage({}) of {} stages left {:?}", id, b.len(), a)));
+    }
+    for j in 0..4 {
+        let left = after.members_k[j].clone().unwrap_or_default();
+        if j >= id && !left.is_empty() {
+            out.push((key.clone(), format!("remove_stage({}) left members {:?} stored under stage {}", id, left, j)));
+        }
+        if j < id && after.members_k[j] != before.members_k[j] {
+            out.push((key.clone(), format!("remove_stage({}) changed the members of earlier stage {}", id, j)));
+        }
+    }
+}
+
+// ======================= running one case =======================
+
+fn instants(so: &StaticObs, now: u64) -> Vec<u64> {
+    let mut v = BTreeSet::new();
+    v.insert(now);
+    if let Ok(l) = &so.stages {
+        for (_, s, _) in l {
+            for b in [s.start, s.end] {
+                v.insert(b.saturating_sub(1));
+                v.insert(b);
+                v.insert(b.saturating_add(1));
+            }
+        }
+    }
+    v.into_iter().collect()
+}
+
+fn run_case(c: &Case) -> Outcome {
+    let mut o = Outcome::default();
+    let k = c.kind;
+    let mut w = World::new(k, c.now0);
+    let r = w.instantiate(&c.inst);
+    o.inst_ok = r.is_ok();
+    o.impl_steps += 1;
+    o.hist.push(format!("{}:instantiate:{}", k.name(), if r.is_ok() { "ok" } else { "err" }));
+    let inst_coq = w.inst_coq(&c.inst);
+    o.distinct.push(format!("{} {} {}", k.coq(), c.now0, inst_coq));
+    let mut steps: Vec<String> = vec![];
+    if r.is_ok() {
+        let mut cur = w.static_obs();
+        monitor_shape(k, &cur, true, &mut o.violations);
+        monitor_first_future(k, &cur, c.now0, "instantiate", &mut o.violations);
+        for op in &c.ops {
+            match op {
+                Op::Time(t) => w.set_time(*t),
+                Op::Sweep => {
+                    steps.push(cur.coq());
+                    let now = w.now();
+                    let mut groups: Vec<(Vec<u64>, String)> = vec![];
+                    for t in instants(&cur, now) {
+                        w.set_time(t);
+                        let to = w.time_obs(&c.probes);
+                        o.impl_steps += 1;
+                        monitor_time(k, &cur, &to, &c.probes, &mut w.hashes, &mut o.violations);
+                        let body = to.body_coq();
+                        o.distinct.push(format!("{} {:?} {} {}", k.coq(), cur.stages.as_ref().ok(), t, body));
+                        if o.sample.is_empty() && to.active.is_some() {
+                            o.sample = format!("at {}: active_stage_id {} has_member {:?} config {:?}", t, to.active_id, to.has, to.cfg);
+                        }
+                        // consecutive instants with identical answers share one step
+                        match groups.last_mut() {
+                            Some((ts, b)) if *b == body => ts.push(t),
+                            _ => groups.push((vec![t], body)),
+                        }
+                    }
+                    for (ts, body) in groups {
+                        steps.push(format!("STime {} {}", coq_list(&ts.iter().map(|t| t.to_string()).collect::<Vec<_>>()), body));
+                    }
+                    w.set_time(now);
+                    o.hist.push(format!("{}:sweep:ok", k.name()));
+                }
+                _ => {
+                    let now = w.now();
+                    let d0 = w.digest();
+                    let r = w.exec(op);
+                    o.impl_steps += 1;
+                    o.hist.push(format!("{}:{}:{}", k.name(), op.kind_name(), if r.is_ok() { "ok" } else { "err" }));
+                    let term = format!("SExec {} {} {}", now, w.op_coq(op), coq_bool(r.is_ok()));
+                    let sender_admin = w.op_json(op).map(|(s, _)| c.inst.admins.contains(&s)).unwrap_or(false);
+                    if sender_admin && !(k == Kind::Merkle && !matches!(op, Op::Update { .. })) {
+                        o.distinct.push(format!("{} {:?} {}", k.coq(), cur.stages.as_ref().ok(), term));
+                    }
+                    steps.push(term);
+                    if r.is_ok() {
+                        let after = w.static_obs();
+                        monitor_shape(k, &after, false, &mut o.violations);
+                        match op {
+                            Op::AddStage { .. } => monitor_first_future(k, &after, now, "add_stage", &mut o.violations),
+                            Op::RemoveStage { id, .. } => monitor_remove(k, &cur, &after, *id, now, &mut o.violations),
+                            _ => {}
+                        }
+                        cur = after;
+                    } else if w.digest() != d0 {
+                        o.violations.push((
+                            format!("C13:{}:rejected-call-changed-state", k.name()),
+                            format!("{:?} was rejected but storage changed", op),
+                        ));
+                    }
+                }
+            }
+        }
+    }
+    let probes = w.probes_coq(&c.probes);
+    o.coq = format!("C13Case {} {} {} {} {} {}", k.coq(), c.now0, inst_coq, coq_bool(o.inst_ok), probes, coq_list(&steps));
+    o
+}
+
+/// greedy one-at-a-time removal of ops while the same violation key still shows
+fn shrink(c: &Case, key: &str) -> Case {
+    let mut best = c.clone();
+    let mut i = best.ops.len();
+    while i > 0 {
+        i -= 1;
+        let mut t = best.clone();
+        t.ops.remove(i);
+        if run_case(&t).violations.iter().any(|(k, _)| k == key) {
+            best = t;
+        }
+    }
+    best
+}
+
+// ======================= generators =======================
+
+const T0: u64 = GENESIS_NS + 1_000_000_000;
+
+fn fee(kind: Kind, limit: u32) -> u64 {
+    match kind {
+        Kind::Merkle => 1_000_000_000,
+        _ => ((limit as u64 + 999) / 1000) * 100_000_000,
+    }
+}
+fn norm(kind: Kind, mut s: St) -> St {
+    if kind == Kind::Flex {
+        s.pal = 0;
+    }
+    s
+}
+fn mk_stage(kind: Kind, name: u64, start: u64, end: u64) -> St {
+    norm(kind, St { name, start, end, denom: 0, price: 100 + 7 * name, pal: 1 + name as u32, mcl: if name % 2 == 1 { Some(50 + name as u32) } else { None } })
+}
+/// stages from window offsets (ns after T0), member m_k = 100+k in stage k (limit 2+k), 110 in all
+fn windows(kind: Kind, offs: &[(i64, i64)]) -> Vec<St> {
+    offs.iter().enumerate().map(|(i, (a, b))| mk_stage(kind, i as u64, (T0 as i64 + a) as u64, (T0 as i64 + b) as u64)).collect()
+}
+fn default_members(n: usize) -> Vec<Vec<(u64, u32)>> {
+    (0..n).map(|k| vec![(100 + k as u64, 2 + k as u32), (110, 7 + k as u32)]).collect()
+}
+fn roots_for(members: &[Vec<(u64, u32)>]) -> Vec<Root> {
+    members
+        .iter()
+        .enumerate()
+        .map(|(k, l)| match l.len() {
+            0 => Root::Leaf(900 + k as u64),
+            1 => Root::Leaf(l[0].0),
+            _ => Root::Pair(l[0].0, l[1].0),
+        })
+        .collect()
+}
+fn default_probes(kind: Kind) -> Vec<Probe> {
+    let mut v = vec![
+        Probe { member: 100, proof: vec![] },
+        Probe { member: 101, proof: vec![] },
+        Probe { member: 102, proof: vec![] },
+        Probe { member: 110, proof: vec![] },
+        Probe { member: 999, proof: vec![] },
+    ];
+    if kind == Kind::Merkle {
+        v = vec![
+            Probe { member: 100, proof: vec![110] },
+            Probe { member: 101, proof: vec![110] },
+            Probe { member: 102, proof: vec![110] },
+            Probe { member: 110, proof: vec![101] },
+            Probe { member: 100, proof: vec![] },
+            Probe { member: 999, proof: vec![110] },
+            Probe { member: 100, proof: vec![-1] },
+        ];
+    }
+    v
+}
+fn mk_inst(kind: Kind, stages: Vec<St>, members: Vec<Vec<(u64, u32)>>) -> Inst {
+    let limit = 20;
+    Inst { roots: roots_for(&members), stages, members, limit, whale: None, admins: vec![ADMIN], paid: fee(kind, limit) }
+}
+fn case(label: &str, kind: Kind, inst: Inst, ops: Vec<Op>) -> Case {
+    Case { label: label.to_string(), kind, now0: T0, inst, probes: default_probes(kind), ops }
+}
+fn at(off: i64) -> u64 {
+    (T0 as i64 + off) as u64
+}
+
+const TOUCH3: [(i64, i64); 3] = [(10, 20), (20, 30), (30, 40)];
+const GAP3: [(i64, i64); 3] = [(10, 20), (25, 30), (35, 40)];
+
+/// instantiate shapes: every guard of validate_stages and of instantiate at bound-1/bound/bound+1
+fn gen_inst_probes(kind: Kind, lits: &[u64], out: &mut Vec<Case>) {
+    let mut shapes: Vec<(String, Vec<(i64, i64)>)> = vec![];
+    for n in 0..=4usize {
+        shapes.push((format!("count-{}", n), (0..n as i64).map(|i| (10 + 20 * i, 20 + 20 * i)).collect()));
+    }
+    for d in [-1i64, 0, 1] {
+        shapes.push((format!("second-starts-at-first-end{:+}", d), vec![(10, 20), (20 + d, 30)]));
+        shapes.push((format!("third-starts-at-second-end{:+}", d), vec![(10, 20), (20, 30), (30 + d, 40)]));
+        shapes.push((format!("third-starts-at-first-end{:+}", d), vec![(10, 20), (12, 15), (20 + d, 40)]));
+        shapes.push((format!("first-start-now{:+}", d), vec![(d, 20), (20, 30)]));
+        shapes.push((format!("single-first-start-now{:+}", d), vec![(d, 20)]));
+        for k in 0..3usize {
+            let mut w = TOUCH3.to_vec();
+            w[k].1 = w[k].0 + d;
+            // keep the later stages clear of the edited end so that only this guard decides
+            shapes.push((format!("stage{}-end-at-start{:+}", k, d), w));
+        }
+    }
+    shapes.push(("reversed-order".into(), vec![(30, 40), (20, 30), (10, 20)]));
+    shapes.push(("swapped-last-two".into(), vec![(10, 20), (30, 40), (20, 30)]));
+    shapes.push(("nested".into(), vec![(10, 40), (20, 30)]));
+    shapes.push(("identical".into(), vec![(10, 20), (10, 20)]));
+    shapes.push(("second-in-the-past".into(), vec![(10, 20), (-20, -10)]));
+    shapes.push(("all-in-the-past".into(), vec![(-40, -30), (-20, -10)]));
+    shapes.push(("later-stage-started-first-not".into(), vec![(10, 20), (-5, 30)]));
+    for (name, offs) in shapes {
+        let st = windows(kind, &offs);
+        let n = st.len();
+        out.push(case(&format!("inst:{}", name), kind, mk_inst(kind, st, default_members(n)), vec![Op::Sweep]));
+    }
+    // per-address limit bounds on each position
+    let mut pals: BTreeSet<u32> = [0u32, 1, 29, 30, 31, 49, 50, 51, u32::MAX].into_iter().collect();
+    for l in lits {
+        for d in [l.saturating_sub(1), *l, l + 1] {
+            if d <= u32::MAX as u64 {
+                pals.insert(d as u32);
+            }
+        }
+    }
+    if kind != Kind::Flex {
+        for pos in 0..2usize {
+            for p in &pals {
+                let mut st = windows(kind, &TOUCH3[..2]);
+                st[pos].pal = *p;
+                out.push(case(&format!("inst:pal{}-at-{}", p, pos), kind, mk_inst(kind, st, default_members(2)), vec![]));
+            }
+        }
+    }
+    // denoms
+    let mut st = windows(kind, &TOUCH3);
+    st[2].denom = 1;
+    out.push(case("inst:denom-differs", kind, mk_inst(kind, st, default_members(3)), vec![]));
+    let mut st = windows(kind, &TOUCH3);
+    for s in st.iter_mut() {
+        s.denom = 1;
+    }
+    out.push(case("inst:denom-all-other", kind, mk_inst(kind, st, default_members(3)), vec![Op::Sweep]));
+    // member limit and fee
+    for (limit, dpaid) in [(0u32, 0i64), (1, 0), (1000, 0), (1001, 0), (30000, 0), (30001, 0), (20, -1), (20, 1), (20, i64::MIN)] {
+        let mut i = mk_inst(kind, windows(kind, &TOUCH3[..2]), default_members(2));
+        i.limit = limit;
+        i.paid = if dpaid == i64::MIN { 0 } else { (fee(kind, limit.max(1)) as i64 + dpaid) as u64 };
+        out.push(case(&format!("inst:limit{}-paid{:+}", limit, if dpaid == i64::MIN { -999 } else { dpaid }), kind, i, vec![Op::Sweep]));
+    }
+    // member lists vs stage count; duplicates (C11:tiered-counts, repaired by 034dca7)
+    let lists: Vec<(&str, usize, Vec<Vec<(u64, u32)>>)> = vec![
+        ("lists-fewer", 2, vec![vec![(100, 1)]]),
+        ("lists-more", 1, vec![vec![(100, 1)], vec![(101, 1), (102, 2)]]),
+        ("lists-none", 1, vec![]),
+        ("dup-in-list", 1, vec![vec![(100, 1), (100, 2)]]),
+        ("dup-across-stages", 2, vec![vec![(100, 1), (110, 3)], vec![(100, 2), (110, 4)]]),
+        ("over-limit", 1, vec![(100..125).map(|a| (a, 1)).collect()]),
+    ];
+    for (name, n, ms) in lists {
+        let mut i = mk_inst(kind, windows(kind, &TOUCH3[..n]), ms);
+        if name == "lists-more" {
+            i.limit = 2;
+            i.paid = fee(kind, 2);
+        }
+        out.push(case(&format!("inst:{}", name), kind, i, vec![Op::Sweep]));
+    }
+    if kind == Kind::Flex {
+        for (whale, cnt) in [(Some(20u32), 1u32), (Some(21), 21), (Some(21), 22), (None, 4000)] {
+            let mut i = mk_inst(kind, windows(kind, &TOUCH3[..1]), vec![vec![(100, cnt)]]);
+            i.whale = whale;
+            out.push(case(&format!("inst:whale{:?}-count{}", whale, cnt), kind, i, vec![Op::Sweep]));
+        }
+    }
+    if kind == Kind::Merkle {
+        for nroots in 0..=4usize {
+            let mut i = mk_inst(kind, windows(kind, &TOUCH3), default_members(3));
+            i.roots = (0..nroots).map(|k| Root::Pair(100 + k as u64, 110)).collect();
+            out.push(case(&format!("inst:roots-{}", nroots), kind, i, vec![Op::Sweep]));
+        }
+        let mut i = mk_inst(kind, windows(kind, &TOUCH3), default_members(3));
+        i.roots[1] = Root::Bad;
+        out.push(case("inst:bad-root", kind, i, vec![]));
+        // a root spelled in upper-case hex denotes the same hash (fix c2c314c)
+        let mut i = mk_inst(kind, windows(kind, &GAP3), default_members(3));
+        i.roots = vec![Root::LeafUpper(100), Root::Pair(101, 110), Root::LeafUpper(102)];
+        out.push(case("inst:roots-upper-case", kind, i, vec![Op::Sweep]));
+        // same root under two stages: only the clock decides
+        let mut i = mk_inst(kind, windows(kind, &GAP3), default_members(3));
+        i.roots = vec![Root::Pair(100, 110), Root::Leaf(100), Root::Pair(100, 110)];
+        out.push(case("inst:roots-shared", kind, i, vec![Op::Sweep]));
+    }
+    // non-admin creator is fine; two admins
+    let mut i = mk_inst(kind, windows(kind, &TOUCH3), default_members(3));
+    i.admins = vec![3, ADMIN];
+    out.push(case("inst:two-admins", kind, i, vec![Op::RemoveStage { sender: 3, id: 2 }, Op::Sweep]));
+}
+
+fn upd(sender: u64, id: u32) -> Op {
+    Op::Update { sender, id, name: None, start: None, end: None, price: None, pal: None, mcl: None }
+}
+
+/// execute guards, each at bound-1/bound/bound+1, every sender role
+fn gen_exec_probes(kind: Kind, out: &mut Vec<Case>) {
+    let one = || mk_inst(kind, windows(kind, &TOUCH3[..1]), default_members(1));
+    let two = || mk_inst(kind, windows(kind, &TOUCH3[..2]), default_members(2));
+    let touch3 = || mk_inst(kind, windows(kind, &TOUCH3), default_members(3));
+    let gap3 = || mk_inst(kind, windows(kind, &GAP3), default_members(3));
+    let new_members = vec![(105u64, 3u32), (110, 9), (105, 4)];
+    // ---- add_stage
+    for d in [-1i64, 0, 1] {
+        // start relative to the previous end; own end relative to own start
+        out.push(case(&format!("add:start-at-prev-end{:+}", d), kind, one(), vec![
+            Op::AddStage { sender: ADMIN, st: mk_stage(kind, 5, at(20 + d), at(30)), members: new_members.clone() }, Op::Sweep]));
+        out.push(case(&format!("add:end-at-start{:+}", d), kind, one(), vec![
+            Op::AddStage { sender: ADMIN, st: mk_stage(kind, 5, at(25), at(25 + d)), members: vec![] }, Op::Sweep]));
+        // the clock against the FIRST stage's start (add_stage re-validates the whole list)
+        out.push(case(&format!("add:clock-at-first-start{:+}", d), kind, one(), vec![
+            Op::Time(at(10 + d)), Op::AddStage { sender: ADMIN, st: mk_stage(kind, 5, at(25), at(30)), members: vec![] }, Op::Sweep]));
+        // third stage against the second
+        out.push(case(&format!("add:third-at-second-end{:+}", d), kind, two(), vec![
+            Op::AddStage { sender: ADMIN, st: mk_stage(kind, 5, at(30 + d), at(50)), members: new_members.clone() }, Op::Sweep]));
+    }
+    out.push(case("add:fourth", kind, touch3(), vec![Op::AddStage { sender: ADMIN, st: mk_stage(kind, 5, at(50), at(60)), members: vec![] }, Op::Sweep]));
+    out.push(case("add:third-then-fourth", kind, two(), vec![
+        Op::AddStage { sender: ADMIN, st: mk_stage(kind, 5, at(30), at(40)), members: vec![] },
+        Op::AddStage { sender: ADMIN, st: mk_stage(kind, 6, at(40), at(50)), members: vec![] }, Op::Sweep]));
+    out.push(case("add:stranger", kind, one(), vec![Op::AddStage { sender: STRANGER, st: mk_stage(kind, 5, at(25), at(30)), members: vec![] }, Op::Sweep]));
+    out.push(case("add:before-first", kind, one(), vec![Op::AddStage { sender: ADMIN, st: mk_stage(kind, 5, at(2), at(8)), members: vec![] }, Op::Sweep]));
+    let mut s = mk_stage(kind, 5, at(25), at(30));
+    s.denom = 1;
+    out.push(case("add:other-denom", kind, one(), vec![Op::AddStage { sender: ADMIN, st: s, members: vec![] }, Op::Sweep]));
+    if kind != Kind::Flex {
+        for p in [0u32, 1, 30, 31, 50, 51] {
+            let mut s = mk_stage(kind, 5, at(25), at(30));
+            s.pal = p;
+            out.push(case(&format!("add:pal{}", p), kind, one(), vec![Op::AddStage { sender: ADMIN, st: s, members: vec![] }, Op::Sweep]));
+        }
+    }
+    // member limit while adding a stage; flex whale cap
+    let mut i = one();
+    i.limit = 3;
+    i.paid = fee(kind, 3);
+    out.push(case("add:members-hit-limit", kind, i.clone(), vec![
+        Op::AddStage { sender: ADMIN, st: mk_stage(kind, 5, at(25), at(30)), members: vec![(120, 1), (121, 1)] }, Op::Sweep]));
+    out.push(case("add:members-at-limit", kind, i, vec![
+        Op::AddStage { sender: ADMIN, st: mk_stage(kind, 5, at(25), at(30)), members: vec![(120, 1)] }, Op::Sweep]));
+    if kind == Kind::Flex {
+        for cnt in [21u32, 22] {
+            let mut i = one();
+            i.whale = Some(21);
+            out.push(case(&format!("add:whale-count{}", cnt), kind, i, vec![
+                Op::AddStage { sender: ADMIN, st: mk_stage(kind, 5, at(25), at(30)), members: vec![(120, cnt)] }, Op::Sweep]));
+        }
+    }
+    // ---- remove_stage
+    for id in 0..=3u32 {
+        for d in [-1i64, 0, 1] {
+            let start = if id < 3 { TOUCH3[id as usize].0 } else { 40 };
+            out.push(case(&format!("remove:{}-at-start{:+}", id, d), kind, touch3(), vec![
+                Op::Time(at(start + d)), Op::RemoveStage { sender: ADMIN, id }, Op::Sweep]));
+        }
+    }
+    out.push(case("remove:stranger", kind, touch3(), vec![Op::RemoveStage { sender: STRANGER, id: 2 }, Op::Sweep]));
+    out.push(case("remove:huge-id", kind, touch3(), vec![Op::RemoveStage { sender: ADMIN, id: u32::MAX }, Op::Sweep]));
+    out.push(case("remove:all-then-use", kind, touch3(), vec![
+        Op::RemoveStage { sender: ADMIN, id: 0 }, Op::Sweep,
+        upd(ADMIN, 0),
+        Op::AddMembers { sender: ADMIN, id: 0, members: vec![(120, 1)] },
+        Op::RemoveStage { sender: ADMIN, id: 0 },
+        Op::AddStage { sender: ADMIN, st: mk_stage(kind, 5, at(0), at(30)), members: vec![] },
+        Op::AddStage { sender: ADMIN, st: mk_stage(kind, 5, at(1), at(30)), members: vec![(101, 5)] }, Op::Sweep]));
+    // stale members must not reappear under a re-added stage id
+    out.push(case("remove:then-readd", kind, touch3(), vec![
+        Op::AddMembers { sender: ADMIN, id: 2, members: vec![(130, 2), (131, 3)] },
+        Op::RemoveStage { sender: ADMIN, id: 1 }, Op::Sweep,
+        Op::AddStage { sender: ADMIN, st: mk_stage(kind, 6, at(20), at(30)), members: vec![(131, 4)] },
+        Op::AddStage { sender: ADMIN, st: mk_stage(kind, 7, at(30), at(40)), members: vec![] }, Op::Sweep]));
+    // a later stage may be removed while an earlier one is running
+    out.push(case("remove:later-while-first-active", kind, touch3(), vec![Op::Time(at(15)), Op::RemoveStage { sender: ADMIN, id: 1 }, Op::Sweep]));
+    // ---- update_stage_config: every window edge against its neighbour and itself
+    for id in 0..3u32 {
+        let k = id as usize;
+        for d in [-1i64, 0, 1] {
+            if k < 2 {
+                let mut u = upd(ADMIN, id);
+                if let Op::Update { end, .. } = &mut u { *end = Some(at(GAP3[k + 1].0 + d)); }
+                out.push(case(&format!("update:{}-end-at-next-start{:+}", id, d), kind, gap3(), vec![u, Op::Sweep]));
+            }
+            if k > 0 {
+                let mut u = upd(ADMIN, id);
+                if let Op::Update { start, .. } = &mut u { *start = Some(at(GAP3[k - 1].1 + d)); }
+                out.push(case(&format!("update:{}-start-at-prev-end{:+}", id, d), kind, gap3(), vec![u, Op::Sweep]));
+            }
+            let mut u = upd(ADMIN, id);
+            if let Op::Update { start, .. } = &mut u { *start = Some(at(GAP3[k].1 + d)); }
+            out.push(case(&format!("update:{}-start-at-own-end{:+}", id, d), kind, gap3(), vec![u, Op::Sweep]));
+            let mut u = upd(ADMIN, id);
+            if let Op::Update { end, .. } = &mut u { *end = Some(at(GAP3[k].0 + d)); }
+            out.push(case(&format!("update:{}-end-at-own-start{:+}", id, d), kind, gap3(), vec![u, Op::Sweep]));
+        }
+        // a running / finished stage can still be edited (no clock guard in the code)
+        let mut u = upd(ADMIN, id);
+        if let Op::Update { end, price, name, mcl, .. } = &mut u {
+            *end = Some(at(GAP3[k].1 + 2));
+            *price = Some((0, 4242));
+            *name = Some(9);
+            *mcl = Some(77);
+        }
+        out.push(case(&format!("update:{}-while-running", id), kind, gap3(), vec![Op::Time(at(GAP3[k].0 + 1)), u.clone(), Op::Sweep]));
+        out.push(case(&format!("update:{}-after-all-ended", id), kind, gap3(), vec![Op::Time(at(100)), u, Op::Sweep]));
+    }
+    // move the first stage into the past / onto now (validate_update has no clock check)
+    for d in [-1i64, 0, 1] {
+        let mut u = upd(ADMIN, 0);
+        if let Op::Update { start, .. } = &mut u { *start = Some(at(d)); }
+        out.push(case(&format!("update:first-start-now{:+}", d), kind, gap3(), vec![u, Op::Sweep]));
+    }
+    for id in [3u32, 4, u32::MAX] {
+        out.push(case(&format!("update:id-{}", id), kind, gap3(), vec![upd(ADMIN, id), Op::Sweep]));
+    }
+    out.push(case("update:noop", kind, gap3(), vec![upd(ADMIN, 1), Op::Sweep]));
+    out.push(case("update:stranger", kind, gap3(), vec![upd(STRANGER, 1), Op::Sweep]));
+    for p in [0u32, 1, 30, 31, 50, 51] {
+        let mut u = upd(ADMIN, 1);
+        if let Op::Update { pal, .. } = &mut u { *pal = Some(p); }
+        out.push(case(&format!("update:pal{}", p), kind, gap3(), vec![u, Op::Sweep]));
+    }
+    let mut u = upd(ADMIN, 0);
+    if let Op::Update { price, .. } = &mut u { *price = Some((1, 5)); }
+    out.push(case("update:denom-single-stage", kind, one(), vec![u.clone(), Op::Sweep]));
+    out.push(case("update:denom-of-one-among-three", kind, gap3(), vec![u, Op::Sweep]));
+    // ---- member edits
+    for id in 0..=3u32 {
+        out.push(case(&format!("members:add-to-{}", id), kind, touch3(), vec![
+            Op::AddMembers { sender: ADMIN, id, members: vec![(121, 4), (120, 3), (121, 5), (110, 1)] }, Op::Sweep]));
+    }
+    out.push(case("members:add-while-running", kind, touch3(), vec![
+        Op::Time(at(25)), Op::AddMembers { sender: ADMIN, id: 1, members: vec![(120, 3)] },
+        Op::AddMembers { sender: ADMIN, id: 0, members: vec![(122, 3)] }, Op::Sweep]));
+    out.push(case("members:add-stranger", kind, touch3(), vec![Op::AddMembers { sender: STRANGER, id: 0, members: vec![(120, 3)] }, Op::Sweep]));
+    for id in 0..3u32 {
+        for d in [-1i64, 0, 1] {
+            out.push(case(&format!("members:remove-from-{}-at-start{:+}", id, d), kind, touch3(), vec![
+                Op::Time(at(TOUCH3[id as usize].0 + d)), Op::RemoveMembers { sender: ADMIN, id, members: vec![110] }, Op::Sweep]));
+        }
+    }
+    out.push(case("members:remove-unknown", kind, touch3(), vec![Op::RemoveMembers { sender: ADMIN, id: 1, members: vec![101, 100] }, Op::Sweep]));
+    out.push(case("members:remove-other-stage-member", kind, touch3(), vec![Op::RemoveMembers { sender: ADMIN, id: 1, members: vec![100] }, Op::Sweep]));
+    out.push(case("members:remove-stage-3", kind, touch3(), vec![Op::RemoveMembers { sender: ADMIN, id: 3, members: vec![110] }, Op::Sweep]));
+    out.push(case("members:remove-stranger", kind, touch3(), vec![Op::RemoveMembers { sender: STRANGER, id: 1, members: vec![110] }, Op::Sweep]));
+    out.push(case("members:remove-twice", kind, touch3(), vec![Op::RemoveMembers { sender: ADMIN, id: 1, members: vec![110, 110] }, Op::Sweep]));
+    let mut i = touch3();
+    i.limit = 7;
+    i.paid = fee(kind, 7);
+    out.push(case("members:add-at-limit", kind, i.clone(), vec![
+        Op::AddMembers { sender: ADMIN, id: 0, members: vec![(120, 1)] },
+        Op::AddMembers { sender: ADMIN, id: 0, members: vec![(100, 1)] },
+        Op::AddMembers { sender: ADMIN, id: 1, members: vec![(121, 1)] }, Op::Sweep]));
+    // flex message fields sent to the other kinds and vice versa
+    let mut u = upd(ADMIN, 1);
+    if let Op::Update { pal, end, .. } = &mut u { *pal = Some(5); *end = Some(at(31)); }
+    out.push(case("update:pal-and-end", kind, gap3(), vec![u, Op::Sweep]));
+}
+
+/// 3-stage worlds whose windows come from one of the classic arrangements
+fn gen_arrangements(kind: Kind, out: &mut Vec<Case>) {
+    let arr: Vec<(&str, Vec<(i64, i64)>)> = vec![
+        ("touching", TOUCH3.to_vec()),
+        ("gaps", GAP3.to_vec()),
+        ("one-ns-windows", vec![(1, 2), (2, 3), (3, 4)]),
+        ("one-ns-gaps", vec![(1, 2), (3, 4), (5, 6)]),
+        ("hours", vec![(3_600_000_000_000, 7_200_000_000_000), (7_200_000_000_000, 10_800_000_000_000)]),
+        ("far-future", vec![(1_000_000_000_000_000_000, 1_000_000_000_000_000_001)]),
+    ];
+    for (name, offs) in arr {
+        let st = windows(kind, &offs);
+        let n = st.len();
+        out.push(case(&format!("arr:{}", name), kind, mk_inst(kind, st, default_members(n)), vec![Op::Sweep]));
+    }
+    // update into a touching arrangement, observe, update apart again
+    let mut u1 = upd(ADMIN, 0);
+    if let Op::Update { end, .. } = &mut u1 { *end = Some(at(25)); }
+    let mut u2 = upd(ADMIN, 2);
+    if let Op::Update { start, .. } = &mut u2 { *start = Some(at(30)); }
+    let mut u3 = upd(ADMIN, 1);
+    if let Op::Update { start, end, .. } = &mut u3 { *start = Some(at(26)); *end = Some(at(29)); }
+    out.push(case("arr:update-to-touching-and-back", kind, mk_inst(kind, windows(kind, &GAP3), default_members(3)),
+        vec![u1, Op::Sweep, u2, Op::Sweep, u3, Op::Sweep]));
+}
+
+/// structured random history, generated against the live contract (reads Stages to choose
+/// mostly-valid arguments), then replayed from scratch by run_case
+fn gen_history(rng: &mut Rng, kind: Kind, idx: usize) -> Case {
+    let unit: u64 = *rng.pick(&[1u64, 1, 10, 1_000_000_000, 3_600_000_000_000]);
+    let n = match rng.below(20) { 0 => 0, 1 => 4, x => 1 + (x % 3) as usize };
+    let mut t = T0 + unit * rng.range(1, 3);
+    let mut st = vec![];
+    for k in 0..n {
+        let start = if rng.chance(1, 3) { t } else { t + unit * rng.range(1, 3) };
+        let end = start + unit * rng.range(1, 4);
+        let mut s = mk_stage(kind, k as u64, start, end);
+        s.price = rng.below(1000);
+        s.pal = if kind == Kind::Flex { 0 } else { rng.range(1, 30) as u32 };
+        st.push(s);
+        t = end;
+    }
+    if rng.chance(1, 4) && !st.is_empty() {
+        let k = rng.below(st.len() as u64) as usize;
+        match rng.below(6) {
+            0 => st[k].end = st[k].start,
+            1 => st[k].end = st[k].start.saturating_sub(1),
+            2 if k > 0 => st[k].start = st[k - 1].end - 1,
+            3 => st[0].start = T0 - rng.below(2),
+            4 if st.len() > 1 => st.swap(0, 1),
+            _ => st[k].pal = *rng.pick(&[0u32, 31, 51]),
+        }
+    }
+    let st: Vec<St> = st.into_iter().map(|s| norm(kind, s)).collect();
+    let pool: Vec<u64> = (100..112).collect();
+    let rand_members = |rng: &mut Rng| -> Vec<(u64, u32)> {
+        let n = rng.below(4);
+        (0..n).map(|_| (*rng.pick(&pool), rng.range(1, 5) as u32)).collect()
+    };
+    let nlists = if rng.chance(1, 10) { rng.below(5) as usize } else { st.len() };
+    let members: Vec<Vec<(u64, u32)>> = (0..nlists).map(|_| rand_members(rng)).collect();
+    let mut inst = mk_inst(kind, st, members);
+    if rng.chance(1, 6) {
+        inst.limit = rng.range(1, 6) as u32;
+        inst.paid = fee(kind, inst.limit);
+    }
+    if kind == Kind::Flex && rng.chance(1, 4) {
+        inst.whale = Some(inst.limit + rng.range(0, 3) as u32);
+    }
+    if kind == Kind::Merkle {
+        inst.roots = (0..rng.range(2, 4)).map(|_| if rng.chance(1, 2) { Root::Leaf(*rng.pick(&pool)) } else { Root::Pair(*rng.pick(&pool), *rng.pick(&pool)) }).collect();
+    }
+    let mut probes: Vec<Probe> = (0..4).map(|_| Probe { member: *rng.pick(&pool), proof: vec![] }).collect();
+    if kind == Kind::Merkle {
+        for r in &inst.roots {
+            match r {
+                Root::Leaf(m) | Root::LeafUpper(m) => probes.push(Probe { member: *m, proof: vec![] }),
+                Root::Pair(a, b) => probes.push(Probe { member: *a, proof: vec![*b as i64] }),
+                Root::Bad => {}
+            }
+        }
+    }
+    probes.sort();
+    probes.dedup();
+    let mut c = Case { label: format!("history-{}", idx), kind, now0: T0, inst, probes, ops: vec![] };
+    let mut w = World::new(kind, T0);
+    if w.instantiate(&c.inst).is_err() {
+        return c;
+    }
+    let nops = rng.range(5, 9);
+    let mut next_name = 10u64;
+    for _ in 0..nops {
+        let so = w.static_obs();
+        let cur: Vec<St> = so.stages.clone().map(|l| l.into_iter().map(|x| x.1).collect()).unwrap_or_default();
+        let now = w.now();
+        let valid = rng.chance(3, 4);
+        let sender = if rng.chance(1, 12) { STRANGER } else { ADMIN };
+        let roll = rng.below(10);
+        let op = match roll {
+            0 | 1 => {
+                // clock: to a boundary instant ahead, or a unit forward
+                let ahead: Vec<u64> = instants(&so, now).into_iter().filter(|x| *x > now).collect();
+                if ahead.is_empty() || rng.chance(1, 4) { Op::Time(now + unit) } else { Op::Time(*rng.pick(&ahead)) }
+            }
+            2 | 3 => {
+                let last_end = cur.last().map(|s| s.end).unwrap_or(now + unit);
+                let start = if valid { last_end.max(now + 1) + if rng.chance(1, 2) { 0 } else { unit } } else { last_end.saturating_sub(rng.range(0, 1)).max(1) - rng.below(2) };
+                let end = if valid || rng.chance(1, 2) { start + unit * rng.range(1, 3) } else { start };
+                next_name += 1;
+                let mut s = mk_stage(kind, next_name, start, end);
+                s.pal = if kind == Kind::Flex { 0 } else { rng.range(1, 30) as u32 };
+                Op::AddStage { sender, st: s, members: rand_members(rng) }
+            }
+            4 => {
+                let id = if cur.is_empty() || !valid { rng.below(4) as u32 } else { (cur.len() - 1) as u32 };
+                Op::RemoveStage { sender, id }
+            }
+            5 | 6 => {
+                if cur.is_empty() {
+                    upd(sender, 0)
+                } else {
+                    let k = rng.below(cur.len() as u64) as usize;
+                    let lo = if k > 0 { cur[k - 1].end } else { 0 };
+                    let hi = if k + 1 < cur.len() { cur[k + 1].start } else { u64::MAX / 2 };
+                    let mut u = upd(sender, k as u32);
+                    if let Op::Update { start, end, price, pal, mcl, name, .. } = &mut u {
+                        match rng.below(5) {
+                            0 => *end = Some(if valid { hi.min(cur[k].end + unit) } else { hi.saturating_add(1) }),
+                            1 => *start = Some(if valid { lo.max(cur[k].start.saturating_sub(unit)) } else { lo.saturating_sub(1) }),
+                            2 => *end = Some(if valid { cur[k].start + 1 } else { cur[k].start }),
+                            3 => { *price = Some((if valid { cur[k].denom } else { 1 }, rng.below(500))); *name = Some(next_name); }
+                            _ => { if kind != Kind::Flex { *pal = Some(if valid { rng.range(1, 30) as u32 } else { *rng.pick(&[0u32, 31, 51]) }); } *mcl = Some(rng.below(9) as u32); }
+                        }
+                    }
+                    u
+                }
+            }
+            7 | 8 => {
+                let id = if cur.is_empty() || !valid { rng.below(4) as u32 } else { rng.below(cur.len() as u64) as u32 };
+                Op::AddMembers { sender, id, members: rand_members(rng) }
+            }
+            _ => {
+                let id = if cur.is_empty() { 0 } else { rng.below(cur.len() as u64) as u32 };
+                let stored: Vec<u64> = so.members_k[id as usize].clone().unwrap_or_default().into_iter().map(|x| x.0).collect();
+                let ms = if valid && !stored.is_empty() { vec![*rng.pick(&stored)] } else { vec![*rng.pick(&pool)] };
+                Op::RemoveMembers { sender, id, members: ms }
+            }
+        };
+        match &op {
+            Op::Time(t) => w.set_time(*t),
+            o => {
+                let ok = w.exec(o).is_ok();
+                c.ops.push(op.clone());
+                if ok && rng.chance(1, 2) {
+                    c.ops.push(Op::Sweep);
+                }
+                continue;
+            }
+        }
+        c.ops.push(op);
+    }
+    c.ops.push(Op::Sweep);
+    c
+}
+
+fn gen_cases(a: &Args) -> Vec<Case> {
+    let mut rng = Rng::new(a.seed);
+    let mut lits: BTreeSet<u64> = BTreeSet::new();
+    for l in harvest_literals(&[
+        "contracts/whitelists/tiered-whitelist/src/helpers.rs",
+        "contracts/whitelists/tiered-whitelist-flex/src/helpers.rs",
+        "contracts/whitelists/tiered-whitelist-merkletree/src/helpers/utils.rs",
+    ]) {
+        if l < 1000 {
+            lits.insert(l as u64);
+        }
+    }
+    let lits: Vec<u64> = lits.into_iter().collect();
+    let mut cases = vec![];
+    for kind in Kind::all() {
+        gen_arrangements(kind, &mut cases);
+    }
+    for kind in Kind::all() {
+        gen_inst_probes(kind, &lits, &mut cases);
+        gen_exec_probes(kind, &mut cases);
+    }
+    let nh = if a.thorough() { 600 } else { 40 };
+    for i in 0..nh {
+        for kind in Kind::all() {
+            cases.push(gen_history(&mut rng, kind, i));
+        }
+    }
+    cases
+}
+
+pub fn run(a: &Args) {
+    let out = OutDir::new(&a.out);
+    let mut rep = Report { property: "C13".into(), tier: a.tier.clone(), seed: a.seed, ..Default::default() };
+    let cases: Vec<Case> = if let Some(p) = &a.replay {
+        #[derive(Deserialize)]
+        struct ReplayFile {
+            case: Case,
+        }
+        let txt = std::fs::read_to_string(p).expect("replay file");
+        let rf: ReplayFile = serde_json::from_str(&txt).expect("replay json");
+        vec![rf.case]
+    } else {
+        gen_cases(a)
+    };
+    let mut coq_cases = Vec::with_capacity(cases.len());
+    let mut distinct = BTreeSet::new();
+    let mut seen_keys = BTreeSet::new();
+    let mut nviol = 0;
+    let mut impl_steps = 0u64;
+    for (i, c) in cases.iter().enumerate() {
+        let o = run_case(c);
+        rep.evaluations += 1;
+        impl_steps += o.impl_steps;
+        for h in &o.hist {
+            rep.bump(h);
+        }
+        for d in o.distinct {
+            distinct.insert(d);
+        }
+        for (key, what) in &o.violations {
+            if !seen_keys.insert(key.clone()) {
+                continue; // one replay per failing shape
+            }
+            nviol += 1;
+            let small = if a.replay.is_some() { c.clone() } else { shrink(c, key) };
+            let what_small = run_case(&small).violations.iter().find(|(k, _)| k == key).map(|(_, w)| w.clone()).unwrap_or(what.clone());
+            let body = format!(
+                "{{\n \"property\": \"C13\",\n \"key\": {},\n \"case\": {},\n \"violation\": {}\n}}\n",
+                serde_json::to_string(key).unwrap(),
+                serde_json::to_string(&small).unwrap(),
+                serde_json::to_string(&what_small).unwrap()
+            );
+            let path = out.write_replay(&format!("C13-{}.json", nviol), &body);
+            rep.violations.push(Violation { key: key.clone(), what: format!("{} [{}]: {}", c.kind.name(), c.label, what_small), replay: path });
+        }
+        if rep.samples.len() < 3 && !o.sample.is_empty() && (i % 131 == 7 || a.replay.is_some()) {
+            rep.samples.push(serde_json::json!({"case": format!("{} {}", c.kind.name(), c.label), "ops": format!("{:?}", c.ops), "impl_output": o.sample}));
+        }
+        coq_cases.push(o.coq);
+    }
+    rep.distinct_nontrivial = distinct.len() as u64;
+    rep.rule = "cases are histories on one contract. Non-trivial = distinct (kind, stage list, step) where the step is an instantiate, an execute sent by an admin that the kind knows, or a full clock observation (ActiveStage, ActiveStageId, IsActive, HasStarted, HasEnded, Config, HasMember and Member for every probe) at one boundary instant; parse rejections and non-admin senders are not counted.".into();
+    rep.notes.push(format!("{} implementation steps (instantiate/execute/clock observations) in {} histories", impl_steps, cases.len()));
+    out.write_cases("C13", "From LP Require Import Prelude Stages C13Corr.", "c13_case", "c13_check", &coq_cases, 6, &mut rep);
+    out.finish(&rep);
+    println!("C13 harness: {} histories, {} implementation steps, {} monitor violations", rep.evaluations, impl_steps, nviol);
 }
